@@ -43,6 +43,23 @@ func verifPrograms(t testing.TB) {
 				if err != nil {
 					panic("VERIF-INFRA load runtime: " + err.Error())
 				}
+				// the export data of the runtime does not carry unexported functions; the map descriptor only
+				// needs the address of this one
+				if ab, err := imp.Import("github.com/goplus/llgo/runtime/abi"); err == nil {
+					for lower, exported := range map[string]string{"_type": "Type", "arraytype": "ArrayType", "chantype": "ChanType", "functype": "FuncType", "interfacetype": "InterfaceType",
+						"maptype": "MapType", "name": "Name", "ptrtype": "PtrType", "slicetype": "SliceType", "structfield": "StructField", "structtype": "StructType", "uncommonType": "UncommonType"} {
+						if o := ab.Scope().Lookup(exported); o != nil && rt.Scope().Lookup(lower) == nil {
+							rt.Scope().Insert(types.NewTypeName(0, rt, lower, o.Type()))
+						}
+					}
+				}
+				up := types.Typ[types.UnsafePointer]
+				eqSig := types.NewSignatureType(nil, nil, nil, types.NewTuple(types.NewParam(0, nil, "p", up), types.NewParam(0, nil, "q", up)), types.NewTuple(types.NewParam(0, nil, "", types.Typ[types.Bool])), false)
+				for _, fn := range []string{"typehash", "structequal", "arrayequal", "c128equal", "c64equal", "f32equal", "f64equal", "interequal", "memequal0", "memequal8", "memequal16", "memequal32", "memequal64", "memequal128", "memequalptr", "nilinterequal", "strequal"} {
+					if rt.Scope().Lookup(fn) == nil {
+						rt.Scope().Insert(types.NewFunc(0, rt, fn, eqSig))
+					}
+				}
 				return rt
 			})
 			// exactly what internal/build.Do installs
@@ -62,9 +79,12 @@ var verifBasics = []types.BasicKind{types.Bool, types.Int8, types.Uint8, types.I
 var verifNamedSeq int
 
 func verifGenType(t *rapid.T, depth int, desc *strings.Builder) types.Type {
-	k := rapid.IntRange(0, 13).Draw(t, "kind")
+	k := rapid.IntRange(0, 15).Draw(t, "kind")
 	if depth >= 3 && k > 5 {
 		k = k % 6
+	}
+	if k >= 14 {
+		return verifGenericInstance(t, depth, desc)
 	}
 	switch k {
 	case 0, 1, 2:
@@ -124,6 +144,59 @@ func verifGenType(t *rapid.T, depth int, desc *strings.Builder) types.Type {
 	}
 }
 
+// verifGenericInstance declares a generic named type whose layout depends on its type parameter by value
+// (type G[T any] struct{ v T; n int32 }, [2]T, struct{ a int8; v T }, a struct nesting another instance) and
+// instantiates it with a generated type argument.
+func verifGenericInstance(t *rapid.T, depth int, desc *strings.Builder) types.Type {
+	verifNamedSeq++
+	anyT := types.Universe.Lookup("any").Type()
+	mk := func(body func(tp *types.TypeParam) types.Type) *types.Named {
+		verifNamedSeq++
+		tp := types.NewTypeParam(types.NewTypeName(0, verifPkg, "T", nil), anyT)
+		n := types.NewNamed(types.NewTypeName(0, verifPkg, fmt.Sprintf("G%d", verifNamedSeq), nil), nil, nil)
+		n.SetTypeParams([]*types.TypeParam{tp})
+		n.SetUnderlying(body(tp))
+		return n
+	}
+	i32, i8 := types.Typ[types.Int32], types.Typ[types.Int8]
+	form := rapid.IntRange(0, 3).Draw(t, "genericForm")
+	var g *types.Named
+	switch form {
+	case 0:
+		desc.WriteString("generic struct{v T; n int32}[")
+		g = mk(func(tp *types.TypeParam) types.Type {
+			return types.NewStruct([]*types.Var{types.NewField(0, verifPkg, "v", tp, false), types.NewField(0, verifPkg, "n", i32, false)}, nil)
+		})
+	case 1:
+		desc.WriteString("generic [2]T[")
+		g = mk(func(tp *types.TypeParam) types.Type { return types.NewArray(tp, 2) })
+	case 2:
+		desc.WriteString("generic struct{a int8; v T}[")
+		g = mk(func(tp *types.TypeParam) types.Type {
+			return types.NewStruct([]*types.Var{types.NewField(0, verifPkg, "a", i8, false), types.NewField(0, verifPkg, "v", tp, false)}, nil)
+		})
+	default:
+		desc.WriteString("generic struct{in Inner[T]; tail int8}[")
+		inner := mk(func(tp *types.TypeParam) types.Type {
+			return types.NewStruct([]*types.Var{types.NewField(0, verifPkg, "v", tp, false), types.NewField(0, verifPkg, "n", i32, false)}, nil)
+		})
+		g = mk(func(tp *types.TypeParam) types.Type {
+			in, err := types.Instantiate(nil, inner, []types.Type{tp}, false)
+			if err != nil {
+				panic("VERIF-INFRA instantiate: " + err.Error())
+			}
+			return types.NewStruct([]*types.Var{types.NewField(0, verifPkg, "in", in, false), types.NewField(0, verifPkg, "tail", i8, false)}, nil)
+		})
+	}
+	arg := verifGenType(t, depth+1, desc)
+	desc.WriteString("]")
+	inst, err := types.Instantiate(types.NewContext(), g, []types.Type{arg}, false)
+	if err != nil {
+		panic("VERIF-INFRA instantiate: " + err.Error())
+	}
+	return inst
+}
+
 func verifStruct(T types.Type) *types.Struct {
 	s, _ := T.Underlying().(*types.Struct)
 	return s
@@ -138,6 +211,12 @@ func TestVerifC08Layout(t *testing.T) {
 		T := verifGenType(t, 0, &desc)
 		d := desc.String()
 		nt := strings.Contains(d, "struct{") || strings.Contains(d, "func(") || strings.Contains(d, "[0]") || strings.Contains(d, "complex")
+		if strings.Contains(d, "generic ") {
+			c.Class("generic_instance")
+			if strings.Contains(d[strings.Index(d, "generic "):], "func(") {
+				c.Class("generic_instance_with_func_argument")
+			}
+		}
 		for i, prog := range verifProgs {
 			tg := verifTargets[i]
 			S := verifSizes[i]
@@ -237,4 +316,105 @@ func verifTrailingZero(T types.Type, S types.Sizes) bool {
 		}
 	}
 	return false
+}
+
+// TestVerifC08MapDescriptor: the numbers a map descriptor records (key slot size, elem slot size, bucket size,
+// indirect-key / indirect-elem flags) must agree with the bucket struct whose layout generated code and the
+// runtime address, on every target: a slot is a pointer exactly when the flag says indirect, the slot size is
+// the size of the bucket's key (elem) array element, and the bucket size is the allocated size of the bucket.
+func TestVerifC08MapDescriptor(t *testing.T) {
+	c := verifstat.For("C08")
+	defer c.Flush()
+	verifPrograms(t)
+	type bctx struct {
+		b Builder
+	}
+	var ctxs []bctx
+	for _, prog := range verifProgs {
+		pkg := prog.NewPackage("verifmap", "verifmap")
+		fn := pkg.NewFunc("f", types.NewSignatureType(nil, nil, nil, nil, nil, false), InGo)
+		ctxs = append(ctxs, bctx{fn.MakeBody(1)})
+	}
+	sized := func(t *rapid.T, label string, comparable bool) (types.Type, string) {
+		// sizes around the inline limit (128 bytes) are what the three sites must agree on
+		n := rapid.SampledFrom([]int64{1, 8, 64, 120, 127, 128, 129, 136, 256}).Draw(t, label+"bytes")
+		switch rapid.IntRange(0, 3).Draw(t, label+"form") {
+		case 0:
+			return types.NewArray(types.Typ[types.Uint8], n), fmt.Sprintf("[%d]uint8", n)
+		case 1:
+			if n%8 == 0 {
+				return types.NewArray(types.Typ[types.Int64], n/8), fmt.Sprintf("[%d]int64", n/8)
+			}
+			return types.NewArray(types.Typ[types.Uint8], n), fmt.Sprintf("[%d]uint8", n)
+		case 2:
+			if n > 8 {
+				st := types.NewStruct([]*types.Var{types.NewField(0, verifPkg, "a", types.NewArray(types.Typ[types.Uint8], n-8), false), types.NewField(0, verifPkg, "p", types.Typ[types.Uintptr], false)}, nil)
+				return st, fmt.Sprintf("struct{a [%d]uint8; p uintptr}", n-8)
+			}
+			return types.Typ[types.String], "string"
+		}
+		if comparable {
+			return types.NewPointer(types.NewArray(types.Typ[types.Uint8], n)), fmt.Sprintf("*[%d]uint8", n)
+		}
+		return types.NewSlice(types.NewArray(types.Typ[types.Uint8], n)), fmt.Sprintf("[][%d]uint8", n)
+	}
+	rapid.Check(t, func(t *rapid.T) {
+		K, kd := sized(t, "key", true)
+		E, ed := sized(t, "elem", false)
+		M := types.NewMap(K, E)
+		d := "map[" + kd + "]" + ed
+		for i, prog := range verifProgs {
+			tg := verifTargets[i]
+			S := verifSizes[i]
+			ks, es := S.Sizeof(K), S.Sizeof(E)
+			atLimit := ks == 128 || es == 128 || ks == 129 || es == 129 || ks == 127 || es == 127
+			c.Case(verifstat.Hash("mapdesc", d, tg.goarch), atLimit, "map_descriptor", "target_"+tg.goarch)
+			if ks == 128 || es == 128 {
+				c.Class("slot_exactly_at_inline_limit")
+			}
+			fields := ctxs[i].b.abiExtendedFields(M, "verif")
+			if len(fields) != 8 {
+				t.Fatalf("VERIF-INFRA map descriptor has %d extended fields", len(fields))
+			}
+			keySlot, elemSlot := int64(fields[4].ZExtValue()), int64(fields[5].ZExtValue())
+			bucketSize, flags := int64(fields[6].ZExtValue()), int64(fields[7].ZExtValue())
+			bucket := prog.abi.MapBucket(M)
+			bst := bucket.Underlying().(*types.Struct)
+			// fields: tophash, keys, elems, overflow
+			keyArr, elemArr := bst.Field(1).Type().(*types.Array), bst.Field(2).Type().(*types.Array)
+			_, keyPtr := keyArr.Elem().(*types.Pointer)
+			_, elemPtr := elemArr.Elem().(*types.Pointer)
+			keyIndirectInBucket := keyPtr && !types.Identical(keyArr.Elem(), K)
+			elemIndirectInBucket := elemPtr && !types.Identical(elemArr.Elem(), E)
+			lb := prog.Type(bucket, InGo)
+			fail := func(msg string) {
+				k := "C08:map-descriptor"
+				if c.IsKnown(k) {
+					c.KnownHit(k)
+					return
+				}
+				t.Fatalf("[%s] %s/%s, %s: %s (descriptor: key slot %d, elem slot %d, bucket %d, flags %#x)", k, tg.goos, tg.goarch, d, msg, keySlot, elemSlot, bucketSize, flags)
+			}
+			switch {
+			case (flags&1 != 0) != keyIndirectInBucket:
+				fail(fmt.Sprintf("indirect-key flag disagrees with the bucket, whose key slots have type %s", keyArr.Elem()))
+			case (flags&2 != 0) != elemIndirectInBucket:
+				fail(fmt.Sprintf("indirect-elem flag disagrees with the bucket, whose elem slots have type %s", elemArr.Elem()))
+			case keySlot != S.Sizeof(keyArr.Elem()):
+				fail(fmt.Sprintf("key slot size disagrees with the bucket's key slots of %d bytes", S.Sizeof(keyArr.Elem())))
+			case elemSlot != S.Sizeof(elemArr.Elem()):
+				fail(fmt.Sprintf("elem slot size disagrees with the bucket's elem slots of %d bytes", S.Sizeof(elemArr.Elem())))
+			case bucketSize != int64(prog.SizeOf(lb)):
+				if verifHas64(bucket) && (tg.goarch == "arm" || tg.goarch == "386" || tg.goarch == "wasm") {
+					k := "C08:size:64bit-scalar-on-32bit-target"
+					if c.IsKnown(k) {
+						c.KnownHit(k)
+						continue
+					}
+				}
+				fail(fmt.Sprintf("bucket size disagrees with the %d bytes generated code allocates for the bucket", prog.SizeOf(lb)))
+			}
+		}
+		c.Sample(map[string]any{"map": d})
+	})
 }
